@@ -31,7 +31,10 @@ def agent_trace(n, alpha: Fraction | None, eps: float, q0: Fraction, steps, seed
     if as_int and float(eps) in (0.0, 1.0):
         eps = int(eps)
     ag = MABEpsilonGreedy(n_actions=n, alpha=a_f, eps=eps, initial_values=iv, random_state=seed)
-    twin = MABEpsilonGreedy(n_actions=n, alpha=a_f, eps=eps, initial_values=iv, random_state=seed)
+    # the twin is built with another seed and then given the same one through the public setter: the choices are a function of
+    # the seed the agent holds, however it got it
+    twin = MABEpsilonGreedy(n_actions=n, alpha=a_f, eps=eps, initial_values=iv, random_state=(seed + 1) if seed % 2 else None)
+    twin.random_state = seed
     env = MABCalibrationEnv(nb_samplers=n)
     ref0 = Fraction(8)
     env._curr_best_loss = float(ref0)  # noqa: SLF001   (the scheduler sets the reference after the bootstrap batch)
